@@ -794,3 +794,20 @@ def obs_C07_pair(gA, gB, kind, out):
 
 
 P.OBS_PAIR["C07"] = obs_C07_pair
+
+
+def obs_C05_pair(gA, gB, kind, out):
+    """A and B: the same configuration at finecontour_Nfine = N and 2N; relative error of hy*dy against the oracle's arc, per cell (1e-8)"""
+    out["kind"] = kind
+    err = {}
+    for tag, g in (("A", gA), ("B", gB)):
+        arcs = cell_arcs(g)
+        A = arcs["Alo_c"] + arcs["Ahi_c"]
+        H = g.var("hy") * g.var("dy")
+        err[tag] = Q((H - A) / A, 1e-8)
+    out["relerr"] = err
+    out["nfineA"] = int(gA.extra["meshuser"].get("finecontour_Nfine", 0))
+    out["nfineB"] = int(gB.extra["meshuser"].get("finecontour_Nfine", 0))
+
+
+P.OBS_PAIR["C05"] = obs_C05_pair
